@@ -1397,3 +1397,48 @@ Proof.
     unfold datainfo_answer, take. rewrite Z.sub_0_r, Z.add_0_l. reflexivity.
   - unfold datainfo_answer. rewrite Z.add_0_l. reflexivity.
 Qed.
+
+(* ================================================================================================== *)
+(** * 9. GRgetpalinfo stays inside the caller's array; SDgetattdatainfo finds the attribute by its whole name *)
+
+Lemma palinfo_guard_spec : forall idx n, GRgetpalinfo_guard 0 idx n = if idx <? n then 1 else 0.
+Proof. intros idx n. unfold GRgetpalinfo_guard. destruct (idx <? n); reflexivity. Qed.
+
+Lemma palinfo_loop_spec : forall ds n idx out, idx <= n ->
+  palinfo_loop ds n idx out =
+  (idx + zlen (take n idx (filter (fun d => is_pal_tag (dd_tag d)) ds)),
+   out ++ take n idx (filter (fun d => is_pal_tag (dd_tag d)) ds)).
+Proof.
+  induction ds as [|d t IH]; intros n idx out Hn; cbn [palinfo_loop filter].
+  - unfold take. rewrite firstn_nil. unfold zlen. cbn [List.length]. rewrite app_nil_r, Z.add_0_r. reflexivity.
+  - rewrite palinfo_guard_spec. destruct (idx <? n) eqn:E.
+    + apply Z.ltb_lt in E. change (1 =? 0) with false. cbv iota.
+      change ((dd_tag d =? DFTAG_IP8) || (dd_tag d =? DFTAG_LUT)) with (is_pal_tag (dd_tag d)).
+      destruct (is_pal_tag (dd_tag d)).
+      * rewrite IH by lia. unfold take. replace (Z.to_nat (n - idx)) with (S (Z.to_nat (n - (idx + 1)))) by lia.
+        cbn [firstn]. rewrite <- app_assoc. cbn [app]. unfold zlen. cbn [List.length].
+        replace (idx + 1 + Z.of_nat (List.length (firstn (Z.to_nat (n - (idx + 1))) (filter (fun d0 => is_pal_tag (dd_tag d0)) t))))
+          with (idx + Z.of_nat (S (List.length (firstn (Z.to_nat (n - (idx + 1))) (filter (fun d0 => is_pal_tag (dd_tag d0)) t))))) by lia.
+        reflexivity.
+      * apply IH. lia.
+    + apply Z.ltb_ge in E. change (0 =? 0) with true. cbv iota. unfold take.
+      replace (Z.to_nat (n - idx)) with 0%nat by lia. cbn [firstn]. unfold zlen. cbn [List.length].
+      rewrite app_nil_r, Z.add_0_r. reflexivity.
+Qed.
+
+Theorem gr_getpalinfo_exact : forall ds n, 0 <= n -> gr_getpalinfo ds n = pal_answer ds (Some n).
+Proof.
+  intros ds n Hn. unfold gr_getpalinfo, pal_answer, palettes. rewrite palinfo_loop_spec by lia.
+  unfold take. rewrite Z.sub_0_r, Z.add_0_l. reflexivity.
+Qed.
+
+Lemma str_eqb_bytes : forall a b, str_eqb a b = bytes_eqb a b.
+Proof. induction a as [|x a IH]; destruct b as [|y b]; cbn [str_eqb bytes_eqb]; try reflexivity; rewrite IH; reflexivity. Qed.
+
+Theorem sd_attr_lookup_exact : forall members name, sd_attr_lookup members name = attr_find members name.
+Proof.
+  intros members name. unfold sd_attr_lookup, attr_find.
+  induction members as [|m t IH]; [reflexivity|]. cbn [find].
+  unfold SDgetattdatainfo_match at 1. rewrite (str_eqb_bytes name (snd (fst m))) || change (str_eqb name (snd (fst m))) with (bytes_eqb name (snd (fst m))).
+  destruct (bytes_eqb (fst (fst m)) attr_class && bytes_eqb name (snd (fst m))); [reflexivity | exact IH].
+Qed.
